@@ -17,8 +17,8 @@ RULE = ("histories of 1-25 operations (demand writes, a child changing its suppl
         "demand incl. zeroing its own demand, garbage collection of a released child, adjustment cycles) on a "
         "real FactoryPool with 0-6 initial recording children and a scripted factory, all numbers exact "
         "Fractions on small grids (ties of the sort key and demands exactly equal to the excess are frequent); "
-        "boundary corpus + every history of length <= 3 over a 6-letter alphabet first, then seeded random; a "
-        "malformed stream has negative demands and factory children without demand (AssertionError).  The "
+        "boundary corpus + every history of length <= 3 over a 6-letter alphabet first, then seeded random "
+        "(demands >= 0 and factory children with demand > 0 throughout: the property's domain).  The "
         "adjustment is the shipped `run()` coroutine, woken once per Adjust under trio.testing.MockClock.  The "
         "iteration order of the hatchery set just before each adjustment is recorded and given to the model "
         "(it decides ties in `sorted`).  non-trivial = some adjustment spawned or released a child")
@@ -106,9 +106,6 @@ def corpus():
     # interference: a released child sets its demand again
     yield {"children": [C(5, 1, 1, 2), C(5, "1/2", 1, 2)], "script": [], "default": dflt,
            "ops": [["set", "2/1"], ["adjust"], ["child", 1, "demand", "3/1"], ["adjust"], ["set", "6/1"], ["adjust"]]}
-    # factory child without demand: AssertionError after it was added
-    yield {"children": [], "script": [C(1, 1, 1, 1), C(1, 1, 1, 0)], "default": dflt,
-           "ops": [["set", "3/1"], ["adjust"], ["adjust"]]}
     # fractional demands, mean utilisation over children with supply only
     yield {"children": [C("1/2", "1/3", "2/3", "7/3"), C(0, "1/2", "1/2", "1/3"), C(3, 1, "1/4", "5/2")],
            "script": [C(0, 0, 0, "3/2")], "default": dflt,
@@ -128,7 +125,7 @@ def exhaustive():
 
 
 def gen_random(rng):
-    wild = rng.random() < 0.12
+    wild = False      # demands stay >= 0 and factory children have demand: the property's domain
     n0 = rng.choice([0, 0, 1, 2, 2, 3, 3, 4, 5, 6])
     children = [rnd_child(rng, wild) for _ in range(n0)]
     script = [rnd_child(rng, positive=True) for _ in range(rng.randint(0, 8))]
